@@ -6,8 +6,8 @@
    modelled: they appear as universally quantified functions constrained by
    the premises written in each statement. *)
 From Coq Require Import List ZArith NArith Bool Permutation Sorted.
-From Tele Require Import Lib.Bytes Lib.Calendar Lib.Sort Gen.Consts Model.Worker
-  Proofs.WorkerFacts Proofs.WorkerSpec Proofs.WorkerChart Proofs.WorkerOracle Proofs.WorkerProps.
+From Tele Require Import Lib.Bytes Lib.Calendar Lib.Sort Gen.Consts Model.Worker Model.WorkerStore
+  Proofs.WorkerFacts Proofs.WorkerSpec Proofs.WorkerChart Proofs.WorkerOracle Proofs.WorkerProps Proofs.WorkerStoreFacts.
 Import ListNotations.
 
 (* ---- merging ------------------------------------------------------- *)
@@ -240,6 +240,62 @@ Theorem C13_goversion_witness_charted :
 Proof. exact goversion_witness_charted. Qed.
 Print Assumptions C13_goversion_witness_charted.
 
+(* ---- sequences of operations on the buckets (round 2) --------------- *)
+
+(* Writing an object replaces it: a later read sees the last write only,
+   whatever (longer, shorter) was stored under the name before. *)
+Theorem C13_write_replaces_object :
+  forall (V : Type) n (v : V) b n', b_get (b_put n v b) n' = if beq n' n then Some v else b_get b n'.
+Proof. exact @b_get_put. Qed.
+Print Assumptions C13_write_replaces_object.
+
+(* After ANY history of uploads, withdrawals, re-uploads under the same name,
+   merges and charts (run_ops from any state), merging a day whose currently
+   stored objects decode to rs answers "merged |rs| reports" and leaves a
+   merged object with exactly one line per currently stored report, which
+   reads back as exactly rs -- nothing of an earlier, longer merged object
+   survives; the other days' objects are untouched.  ord = the listing order
+   of the bucket (any function). *)
+Theorem C13_remerge_reads_current :
+  forall (R : Type) (enc : R -> bytes) (dec : bytes -> option R) (proj : R -> report)
+         (ord : bucket bytes -> bucket bytes) it lts ltg cfg,
+  (forall r, ~ In nl (enc r)) -> (forall r, enc r <> []) -> (forall r, dec (enc r) = Some r) ->
+  forall st0 ops date rs,
+  let st := fst (run_ops R enc dec proj ord it lts ltg cfg st0 ops) in
+  map dec (day_objects ord (ws_upload st) date) = map (@Some R) rs ->
+  let '(st', resp) := do_merge R enc dec ord st date in
+  resp = RespMerge (length rs) true /\
+  ws_upload st' = ws_upload st /\ ws_chart st' = ws_chart st /\
+  (forall n, n <> date ++ json_ext -> b_get (ws_merged st') n = b_get (ws_merged st) n) /\
+  exists file, b_get (ws_merged st') (date ++ json_ext) = Some file /\
+               unframe file = map enc rs /\ read_merged R dec file = Some rs.
+Proof.
+  exact (fun R enc dec proj ord it lts ltg cfg H1 H2 H3 st0 ops date rs =>
+           remerge_reads_current R enc dec ord H1 H2 H3
+             (fst (run_ops R enc dec proj ord it lts ltg cfg st0 ops)) date rs).
+Qed.
+Print Assumptions C13_remerge_reads_current.
+
+(* ... and charting that day afterwards writes (replacing any earlier chart
+   object) a chart with NumReports = |rs| that meets the specification for
+   exactly the currently stored reports. *)
+Theorem C13_chart_after_remerge :
+  forall (R : Type) (enc : R -> bytes) (dec : bytes -> option R) (proj : R -> report)
+         (ord : bucket bytes -> bucket bytes),
+  (forall r, ~ In nl (enc r)) -> (forall r, enc r <> []) -> (forall r, dec (enc r) = Some r) ->
+  forall it lts ltg cfg st day rs,
+  iter_ok it -> cfg_ok lts ltg cfg ->
+  map dec (day_objects ord (ws_upload st) (fmt_date day)) = map (@Some R) rs ->
+  let st1 := fst (do_merge R enc dec ord st (fmt_date day)) in
+  exists cd,
+    do_chart R dec proj it lts ltg cfg st1 day day =
+      (mkWS (ws_upload st1) (ws_merged st1) (b_put (chart_object_name day day) cd (ws_chart st1)),
+       RespChart (ChartOk (chart_object_name day day) cd)) /\
+    cd_num cd = length rs /\
+    chart_ok lts ltg cfg (fmt_date day) (fmt_date day) (map proj rs) cd = true.
+Proof. exact chart_after_remerge. Qed.
+Print Assumptions C13_chart_after_remerge.
+
 (* ---- non-vacuity --------------------------------------------------- *)
 
 (* the identity iteration orders with insertion sort satisfy iter_ok *)
@@ -266,3 +322,11 @@ Example C13_example_chart :
         (c_goversionCounter, [([103; 111; 49; 46; 50; 49]%N, 1%Z); ([103; 111; 49; 46; 57]%N, 1%Z)]);
         ([102%N], [([97%N], 1%Z); ([98%N], 1%Z)]) ].
 Proof. exact example_chart. Qed.
+(* three reports merged, one withdrawn and one re-stored shorter, merged again:
+   the merged object is the two-line one *)
+Example C13_example_remerge :
+  let '(st, resps) := run_ops nat ex_enc ex_dec (fun _ => mkReport [] 0%Z []) (fun b => b) iter_id bltb bltb
+                              (mkCfg [] [] [] []) ws_empty ex_ops in
+  resps = [RespNone; RespNone; RespNone; RespMerge 3 true; RespNone; RespNone; RespMerge 2 true] /\
+  b_get (ws_merged st) ([100%N] ++ json_ext) = Some (frame [ex_enc 1; ex_enc 2]).
+Proof. exact example_remerge. Qed.
